@@ -77,10 +77,9 @@ class Pi4QPSKModulator(BaseModulator):
         self.register_buffer("constellation", qpsk)
 
         # Bit patterns for symbols (Gray coded or binary)
-        if self.gray_coded:
-            bit_patterns = torch.tensor([[0, 0], [0, 1], [1, 1], [1, 0]], dtype=torch.float)
-        else:
-            bit_patterns = torch.tensor([[0, 0], [0, 1], [1, 0], [1, 1]], dtype=torch.float)
+        # The modulator maps the bit pair with value i to point i of either constellation; the Gray
+        # property comes from the order of the angles above, so the labels are the same in both cases
+        bit_patterns = torch.tensor([[0, 0], [0, 1], [1, 0], [1, 1]], dtype=torch.float)
 
         self.register_buffer("bit_patterns", bit_patterns)
 
@@ -168,11 +167,12 @@ class Pi4QPSKDemodulator(BaseDemodulator):
 
     _use_rotated: torch.Tensor  # Type annotation for the buffer
 
-    def __init__(self, soft_output: bool = False, *args, **kwargs) -> None:
+    def __init__(self, soft_output: bool = False, gray_coded: bool = True, *args, **kwargs) -> None:
         """Initialize the π/4-QPSK demodulator.
 
         Args:
             soft_output: Whether to output soft LLR values even when noise_var is not provided
+            gray_coded: Whether the modulator uses Gray coding for mapping (default: True)
             *args: Variable length argument list.
             **kwargs: Arbitrary keyword arguments.
         """
@@ -181,7 +181,8 @@ class Pi4QPSKDemodulator(BaseDemodulator):
         self.soft_output = soft_output
 
         # Create reference modulator to access constellations
-        self.modulator = Pi4QPSKModulator()
+        self.gray_coded = gray_coded
+        self.modulator = Pi4QPSKModulator(gray_coded=gray_coded)
 
         # Keep track of which constellation to use for demodulation
         self.register_buffer("_use_rotated", torch.tensor(False))
